@@ -35,16 +35,27 @@ def seed():
 
 # ------------------------------------------------------------------------------------------
 # building the harness against /repo's current working tree
+def _fma_flags():
+    # the "FMA" builds are what `-C target-cpu=haswell`-or-later users get: FMA together with AVX2 where this CPU has it
+    # (code behind cfg(target_feature = "avx2") is compiled in those builds only)
+    try:
+        flags = open("/proc/cpuinfo").read()
+    except OSError:
+        flags = ""
+    return "-C target-feature=+fma,+avx2" if " avx2" in flags else "-C target-feature=+fma"
+
+
+FMA = _fma_flags()
 BUILDS = {
     # name: (cargo args, RUSTFLAGS)
     "fast-nofma-release": (["--release", "--features", "fast"], ""),
     "fast-nofma-checked": (["--profile", "checked", "--features", "fast"], ""),
-    "fast-fma-release": (["--release", "--features", "fast"], "-C target-feature=+fma"),
-    "fast-fma-checked": (["--profile", "checked", "--features", "fast"], "-C target-feature=+fma"),
+    "fast-fma-release": (["--release", "--features", "fast"], FMA),
+    "fast-fma-checked": (["--profile", "checked", "--features", "fast"], FMA),
     "exact-nofma-release": (["--release"], ""),
     "exact-nofma-checked": (["--profile", "checked"], ""),
-    "exact-fma-release": (["--release"], "-C target-feature=+fma"),
-    "exact-fma-checked": (["--profile", "checked"], "-C target-feature=+fma"),
+    "exact-fma-release": (["--release"], FMA),
+    "exact-fma-checked": (["--profile", "checked"], FMA),
 }
 
 
